@@ -92,6 +92,14 @@ func (d *Driver) yield(instanceID, site string) {
 		}
 		return
 	}
+	if site == "acquire.attempt" {
+		// observation point only: when an acquisition attempt starts (C17)
+		g := goid()
+		d.mu.Lock()
+		d.h.Attempts = append(d.h.Attempts, &AttemptEvt{GID: g, T: d.now(), Step: d.step})
+		d.mu.Unlock()
+		return
+	}
 	d.mu.Lock()
 	if d.ending || d.plan.Sched.YieldProb <= 0 || !d.rYield.Bool(d.plan.Sched.YieldProb) {
 		d.mu.Unlock()
